@@ -48,11 +48,19 @@ def walk(n):
 
 
 def src_files():
+    """the translation units of the library: the `set(src ...)` list of src/CMakeLists.txt
+    (platform files such as bash_f64.c are #included by bash_f.c, not compiled on their own)"""
+    txt = open(os.path.join(REPO, "src", "CMakeLists.txt")).read()
+    m = re.search(r"set\(src\s+(.*?)\)", txt, flags=re.S)
+    if not m:
+        raise Unhandled("src/CMakeLists.txt: set(src ...) not found")
     out = []
-    for d, _, fs in os.walk(os.path.join(REPO, "src")):
-        for f in sorted(fs):
-            if f.endswith(".c"):
-                out.append(os.path.relpath(os.path.join(d, f), REPO))
+    for w in m.group(1).split():
+        if not w.endswith(".c"):
+            raise Unhandled("src/CMakeLists.txt: unexpected entry " + w)
+        if not os.path.exists(os.path.join(REPO, "src", w)):
+            raise Unhandled("src/CMakeLists.txt: missing file " + w)
+        out.append("src/" + w)
     return sorted(out)
 
 
@@ -64,20 +72,67 @@ def _clang_json(args):
     return p.stdout
 
 
+CAP = 120 << 20      # JSON larger than this: fall back to name-filtered dumps (bash_f*.c expand to gigabytes)
+
+
+def _run_capped(cmd, cap):
+    """run, return stdout text or None if it exceeds `cap` bytes"""
+    p = subprocess.Popen(cmd, stdout=subprocess.PIPE, stderr=subprocess.DEVNULL)
+    chunks, n = [], 0
+    while True:
+        b = p.stdout.read(1 << 20)
+        if not b:
+            break
+        chunks.append(b)
+        n += len(b)
+        if n > cap:
+            p.kill()
+            p.wait()
+            return None
+    p.wait()
+    if p.returncode != 0:
+        raise Unhandled("clang failed on %s" % cmd[-1])
+    return b"".join(chunks).decode()
+
+
+def _multi_json(s):
+    dec = json.JSONDecoder()
+    i, objs = 0, []
+    while i < len(s):
+        while i < len(s) and s[i].isspace():
+            i += 1
+        if i >= len(s):
+            break
+        o, i = dec.raw_decode(s, i)
+        objs.append(o)
+    return objs
+
+
 def _load_tu(arg):
     rel, flags = arg
+    base = ["clang-14", "-I%s/include" % REPO, "-I%s/src" % REPO, "-fsyntax-only", "-Wno-everything", "-DNDEBUG"] + list(flags)
     try:
-        out = _clang_json(list(flags) + ["-Xclang", "-ast-dump=json", os.path.join(REPO, rel)])
+        out = _run_capped(base + ["-Xclang", "-ast-dump=json", os.path.join(REPO, rel)], CAP)
+        if out is None:
+            tops = []
+            for filt in ("_deep", "_keep"):
+                o = _run_capped(base + ["-Xclang", "-ast-dump=json", "-Xclang", "-ast-dump-filter=" + filt, os.path.join(REPO, rel)], CAP)
+                if o is None:
+                    return rel, None, "AST too large even when filtered"
+                tops += _multi_json(o)
+            partial = True
+        else:
+            tops = json.loads(out).get("inner", [])
+            partial = False
+        del out
     except Unhandled as e:
         return rel, None, str(e)
-    tu = json.loads(out)
-    del out
     funcs = []
-    for n in tu.get("inner", []):
+    for n in tops:
         if n.get("kind") == "FunctionDecl" and any(c["kind"] == "CompoundStmt" for c in n.get("inner", [])) and _wanted(n):
             funcs.append(_slim(n))
-    del tu
-    return rel, funcs, None
+    del tops
+    return rel, funcs, ("partial" if partial else None)
 
 
 _INT = re.compile(r"^(const )?(size_t|unsigned long|unsigned int|int|word|u32|u64|u16|octet|bool_t|unsigned|long|unsigned long long)$")
@@ -132,6 +187,7 @@ class Tree:
         files = src_files()
         self.files = files
         self.errors = []
+        self.partial = []
         self.funcs = {}       # key -> Func ; key = name, or name@stem for a clashing static
         self.by_file = {}
         import multiprocessing
@@ -139,7 +195,9 @@ class Tree:
             res = pool.map(_load_tu, [(f, flags) for f in files], chunksize=1)
         hdr_seen = {}
         for rel, funcs, err in res:
-            if err:
+            if err == "partial":
+                self.partial.append(rel)     # only *_deep/*_keep were read from this TU
+            elif err:
                 self.errors.append("%s: %s" % (rel, err))
                 continue
             for node in funcs:
